@@ -166,6 +166,12 @@ struct Ex {
           json::Array pts;
           for (auto *P : FD->parameters()) pts.push_back(ty(P->getType()));
           o["pt"] = std::move(pts);
+          if (auto *TA = FD->getTemplateSpecializationArgs()) {
+            json::Array tas;
+            for (auto &A : TA->asArray())
+              if (A.getKind() == TemplateArgument::Type) tas.push_back(ty(A.getAsType()));
+            o["ctargs"] = std::move(tas);
+          }
         } else
           o["callee_e"] = expr(CE->getCallee());
         if (auto *MC = dyn_cast<CXXMemberCallExpr>(CE)) o["obj"] = expr(MC->getImplicitObjectArgument());
@@ -337,10 +343,10 @@ static bool vendored(const std::string &f) {
 
 struct V : RecursiveASTVisitor<V> {
   ASTContext &C;
-  json::Array &Fns, &Globs, &Recs;
+  json::Array &Fns, &Globs, &Recs, &Enums;
   Ex X;
   std::set<std::string> seen, seenG, seenR;
-  V(ASTContext &c, json::Array &f, json::Array &g, json::Array &r) : C(c), Fns(f), Globs(g), Recs(r), X(c) {}
+  V(ASTContext &c, json::Array &f, json::Array &g, json::Array &r, json::Array &e) : C(c), Fns(f), Globs(g), Recs(r), Enums(e), X(c) {}
   bool shouldVisitTemplateInstantiations() const { return true; }
   bool shouldVisitImplicitCode() const { return false; }
 
@@ -402,6 +408,21 @@ struct V : RecursiveASTVisitor<V> {
     r["has_user_copy"] = RD->hasUserDeclaredCopyConstructor();
     r["has_user_assign"] = RD->hasUserDeclaredCopyAssignment();
     Recs.push_back(std::move(r));
+    return true;
+  }
+  bool VisitEnumDecl(EnumDecl *ED) {
+    if (!ED->isThisDeclarationADefinition()) return true;
+    std::string f = X.file(ED->getLocation());
+    if (!repoFile(f) || vendored(f)) return true;
+    std::string key = "enum " + ED->getQualifiedNameAsString() + "@" + X.locs(ED->getLocation());
+    if (!seenR.insert(key).second) return true;
+    json::Object r;
+    r["name"] = ED->getQualifiedNameAsString();
+    r["loc"] = X.locs(ED->getLocation());
+    json::Object cs;
+    for (auto *E : ED->enumerators()) cs[E->getNameAsString()] = E->getInitVal().getExtValue();
+    r["consts"] = std::move(cs);
+    Enums.push_back(std::move(r));
     return true;
   }
   bool VisitRecordDecl(RecordDecl *RD) {   // plain C structs
@@ -589,8 +610,8 @@ struct V : RecursiveASTVisitor<V> {
 
 struct Cons : ASTConsumer {
   void HandleTranslationUnit(ASTContext &C) override {
-    json::Array fns, globs, recs;
-    V v(C, fns, globs, recs);
+    json::Array fns, globs, recs, enums;
+    V v(C, fns, globs, recs, enums);
     v.TraverseDecl(C.getTranslationUnitDecl());
     std::error_code EC;
     llvm::raw_fd_ostream os(Out, EC);
@@ -598,6 +619,7 @@ struct Cons : ASTConsumer {
     top["functions"] = std::move(fns);
     top["globals"] = std::move(globs);
     top["records"] = std::move(recs);
+    top["enums"] = std::move(enums);
     os << json::Value(std::move(top)) << "\n";
   }
 };
